@@ -400,6 +400,29 @@ PASS_THROUGH = [
 ]
 
 
+def gen_hex_passthrough(rng, n):
+    """Plain hexadecimal integer literals that merely END in B<decimal digits> with no underscore right
+    before that B (underscores and further B's anywhere else): by the documented rule they are ordinary
+    integers and must pass through unchanged."""
+    out = []
+    while len(out) < n:
+        head = "".join(rng.choice("0123456789abcdefABCDEF__BB") for _ in range(rng.randint(1, 14)))
+        if head.startswith("_") is False and rng.random() < 0.3:
+            head = head + "_B" + rng.choice("0123456789abcdefB")
+        tail = "B" + "".join(rng.choice("0123456789") for _ in range(rng.randint(1, 4)))
+        body = head + tail
+        if body[len(head) - 1] == "_" or body.startswith("_") and False:
+            continue
+        if not any(ch in "0123456789abcdefABCDEF" for ch in head):
+            continue
+        digits = body.replace("_", "")
+        if len(digits) > 31:
+            continue
+        # a `U` never occurs, so the only suffix candidate is the last B; it must not be preceded by `_`
+        out.append(("0x" + body, int(digits, 16)))
+    return out
+
+
 def build_positive_program(cases, rng, with_passthrough):
     lines = [POS_HEADER, "    uint! {"]
     for i, c in enumerate(cases):
@@ -420,6 +443,9 @@ def build_positive_program(cases, rng, with_passthrough):
         lines.append('    println!("P 901 {}", uint!([1u8, 2u8][1]) == 2u8);')
         lines.append('    println!("P 902 {}", uint!({ let x = 0xB8; x + 1 }) == 0xB9);')
         lines.append('    println!("P 903 {}", uint!(vec![(1u8, "x"), (2u8, "3_U8")].len()) == 2);')
+        for j, (lit, val) in enumerate(gen_hex_passthrough(rng, 40)):
+            lines.append(f"    println!(\"H {j} {val} {{}}\", {{ let v: u128 = uint!({lit}); v }});")
+            lines.append(f"    // hexlit {j} {lit}")
     lines.append("}")
     return "\n".join(lines)
 
@@ -495,8 +521,8 @@ def run_macro(tier, seed, ctx):
     rng = random.Random(seed * 7919 + 17)
     root = os.path.join(ctx["WORK"], "probe-macro")
     target = os.path.join(ctx.get("TARGET", os.path.join(ctx["ROOT"], "target")), "probe-macro")
-    n_pos_crates, per = (4, 110) if tier == "quick" else (40, 200)
-    n_neg, per_neg = (1, 160) if tier == "quick" else (12, 400)
+    n_pos_crates, per = (10, 150) if tier == "quick" else (60, 200)
+    n_neg, per_neg = (4, 250) if tier == "quick" else (16, 400)
     bins, pos_meta, neg_meta = {}, {}, {}
     # the directed part is seed independent
     fixed_rng = random.Random(12345)
@@ -585,6 +611,16 @@ def run_macro(tier, seed, ctx):
                 if got != limbs_of(c["value"], c["bits"]):
                     viol("C19|positive|const-value", dict(op="positive", kind="const item value differs", literal=c["literal"],
                          expected=str(limbs_of(c["value"], c["bits"])), observed=str(got), program=bins[name]))
+            elif parts[0] == "H":
+                evals += 1
+                counts["passthrough_checked"] += 1
+                want, got = parts[2], parts[3]
+                lit = next((l.split(" ", 3)[3] for l in bins[name].split("\n") if l.strip().startswith(f"// hexlit {parts[1]} ")), "?")
+                distinct.add("hex-" + lit)
+                if want != got.strip():
+                    viol("C19|passthrough|hex-ending-in-B-changed", dict(op="passthrough",
+                         kind="hexadecimal literal ending in B<digits> without separating underscore was changed", literal=lit,
+                         expected=want, observed=got, program=f"fn main() {{ let v: u128 = ruint::uint!({lit}); assert_eq!(v, {want}); }}"))
             elif parts[0] == "P":
                 evals += 1
                 counts["passthrough_checked"] += 1
